@@ -63,8 +63,11 @@ def _assigned_in(stmts):
 
 
 class _Fn:
-    def __init__(self, node):
+    def __init__(self, node, lenient=False):
         self.node = node
+        #: lenient: every `for` loop runs at least once and every `try` body completes (what a maintainer may know and the analysis
+        #: cannot): a read flagged in lenient mode is unassigned on a *branch* path; one flagged only in strict mode is undecided
+        self.lenient = lenient
         self.problems = []          # (lineno, name)
         self.locals = self._locals(node)
         a = node.args
@@ -253,9 +256,12 @@ class _Fn:
             info = {'breaks': []}
             st = st.drop_guards_on(_assigned_in([s]))
             body_in = self.bind(s.target, st)
-            self.block(s.body, body_in, info)
+            body_out = self.block(s.body, body_in, info)
             # zero iterations possible: only what was definite before the loop is definite after it (+ orelse)
-            after = self.block(s.orelse, st, loop) if s.orelse else st
+            base = st
+            if self.lenient and body_out is not TOP:
+                base = St(frozenset.__or__(st, frozenset.__and__(body_out, body_out)), st.cond)
+            after = self.block(s.orelse, base, loop) if s.orelse else base
             for b in info['breaks']:
                 after = _meet(after, b)
             return after
@@ -286,7 +292,7 @@ class _Fn:
             else_out = self.block(s.orelse, body_out, loop) if s.orelse else body_out
             outs = [else_out]
             for h in s.handlers:
-                hs = st
+                hs = st if not self.lenient or body_out is TOP else st      # (handlers always start from the state before the try)
                 if h.type is not None:
                     hs = self.reads(h.type, hs)
                 if h.name:
@@ -326,9 +332,17 @@ class _Fn:
         return sorted(set(self.problems))
 
 
-def analyse_function(fn_node):
+def analyse_function(fn_node, lenient=False):
     """-> list of (lineno, name): reads of a local that is not assigned on every path reaching the read"""
-    return _Fn(fn_node).run()
+    return _Fn(fn_node, lenient).run()
+
+
+def classify(fn_node):
+    """-> (definite, possible): reads unassigned on a branch path even if every loop body runs (definite problems), and reads that
+    are unassigned only if some `for` loop runs zero times (possible: not decided by this analysis)"""
+    strict = analyse_function(fn_node)
+    len_ = set(analyse_function(fn_node, lenient=True))
+    return [p for p in strict if p in len_], [p for p in strict if p not in len_]
 
 
 def analyse_module(tree):
@@ -364,6 +378,9 @@ _SELFTEST = [
 def selftest():
     """-> list of failed cases (must be empty): run by the check on every run"""
     bad = []
+    d, p = classify(ast.parse('def f(r, a):\n    for i in r:\n        y = i\n    if a:\n        z = 1\n    return y + z\n').body[0])
+    if sorted(n for _, n in d) != ['z'] or sorted(n for _, n in p) != ['y']:
+        bad.append(('classify', d, p))
     for src, want in _SELFTEST:
         got = sorted({n for _, n in analyse_function(ast.parse(src).body[0])})
         if got != sorted(want):
